@@ -132,6 +132,8 @@ func newC18World(c *sim.Case, n int, storeMode string, timeouts [][2]int, discov
 	ctx, cancel := context.WithCancel(context.Background())
 	w.cancel = cancel
 	if binary {
+		// what the process logs (and the interceptors that log it) must not change what it answers
+		full.LogLevel = sim.PickStr(c, "binary.log", "error", "debug", "info", "trace")
 		svc, err := sim.StartService(full)
 		if err != nil {
 			panic(err)
@@ -139,16 +141,19 @@ func newC18World(c *sim.Case, n int, storeMode string, timeouts [][2]int, discov
 		w.svc = svc
 		return w
 	}
+	// as in cmd/main.go every component is built around the configuration object before that is filled in
+	shell, fill := sim.LateConfig(full)
 	tls := internal.NewTLSConfigPool(ctx)
-	fac := oidc.NewSessionStoreFactory(full)
+	fac := oidc.NewSessionStoreFactory(shell)
+	prov := oidc.NewJWKSProvider(shell, tls)
+	w.filter = server.NewExtAuthZFilter(shell, tls, prov, fac)
+	fill()
 	if err := fac.PreRun(); err != nil {
 		panic(err)
 	}
-	prov := oidc.NewJWKSProvider(full, tls)
 	if disc {
 		go func() { _ = prov.ServeContext(ctx) }() // discovered key sets come through the fetcher
 	}
-	w.filter = server.NewExtAuthZFilter(full, tls, prov, fac)
 	return w
 }
 
